@@ -1,8 +1,10 @@
 """C17 - XML serializer output re-parses to the same namespaced tree.
 
-proof      : coq/Props/C17.v (declaration adequacy outside the finding classes, reversible escaping, the
-             round trip at token level for parser-shaped documents outside the finding classes
-             (C17_roundtrip_partial); refutation witnesses for the findings)
+proof      : coq/Props/C17.v (declaration adequacy for every document, reversible escaping incl. CR and
+             namespace URIs, the round trip at token level for parser-shaped documents
+             (C17_roundtrip_partial)).  The five serializer findings of the first round are repaired in
+             /repo (1365bbe, 94524fa, 90b86cd, cc87c47, e751ebf); the model mirrors the repaired code and
+             a recurrence of any of them is a VIOLATION.
 tie        : correspondence - (1) tree -> characters: model serializer vs xml5ever::serialize on the
              implementation's own trees; (2) the tokens the model's items denote vs the token stream
              recorded when the implementation re-parses its own output; (3) model tree builder on
@@ -10,113 +12,11 @@ tie        : correspondence - (1) tree -> characters: model serializer vs xml5ev
 oracle     : tree(parse(serialize(t))) == t on the implementation, t = tree(parse(x)) (doctype
              public/system ids excluded: they are outside the serializer API)
 """
-import itertools
 import json
 import os
 
-from checks.c16 import (FIXED_XML, XML_URI, XMLNS_URI, build_all, build_cases, doc_from_json, elements_preorder,
-                        merge_text, parse_tokens, parse_tree, run_impl, sections, show_tokens, strip_doctype_ids,
-                        tolerated_fix)
-
-# ----------------------------------------------------------------------------- reference serializer
-# A serializer that declares what it uses, with one switch per known root cause.  With every switch
-# on it is xml5ever's serializer; the set of switches needed to reproduce the implementation's
-# output on a failing case is the signature of that failure.
-TOGGLES = {
-    "A": "attribute-prefix-registered-after-declarations-written",
-    "B": "end-elem-reregisters-name-in-parent-scope",
-    "C": "no-xmlns-empty-for-unnamespaced-child-of-default-namespace",
-    "D": "carriage-return-written-raw",
-    "E": "namespace-uri-written-unescaped",
-}
-
-
-def esc(s, attr_mode, q):
-    out = []
-    for c in s:
-        if c == "&":
-            out.append("&amp;")
-        elif c == "'" and attr_mode:
-            out.append("&apos;")
-        elif c == '"' and attr_mode:
-            out.append("&quot;")
-        elif c == "<" and not attr_mode:
-            out.append("&lt;")
-        elif c == ">" and not attr_mode:
-            out.append("&gt;")
-        elif c == "\r" and "D" not in q:
-            out.append("&#13;")
-        else:
-            out.append(c)
-    return "".join(out)
-
-
-def ref_serialize(nodes, q):
-    stack = []
-    out = []
-
-    def find(prefix, ns):
-        for m in reversed(stack):
-            if prefix in m:
-                return m[prefix] == ns
-        return False
-
-    def qual(p, l):
-        return l if p is None else p + ":" + l
-
-    def node(n):
-        if n[0] == "E":
-            _, p, ns, l, attrs, kids = n
-            stack.append({})
-            decls = []
-
-            def reg(prefix, uri, declare):
-                if (prefix is not None or uri != "") and not find(prefix, uri):
-                    stack[-1][prefix] = uri
-                    if declare:
-                        decls.append((prefix, uri))
-            reg(p, ns, True)
-            if "C" not in q and p is None and ns == "":
-                inherited = ""
-                for m in reversed(stack):
-                    if None in m:
-                        inherited = m[None]
-                        break
-                if inherited != "":
-                    stack[-1][None] = ""
-                    decls.append((None, ""))
-            if "A" not in q:
-                for ap, ans, al, av in attrs:
-                    if ap == "xml" and ans == XML_URI:
-                        continue                    # fixed binding, needs no declaration
-                    reg(ap, ans, True)
-            s = "<" + qual(p, l)
-            for dp, du in decls:
-                s += " xmlns" + ("" if dp is None else ":" + dp) + '="' + (du if "E" in q else esc(du, True, q)) + '"'
-            for ap, ans, al, av in attrs:
-                if "A" in q:
-                    reg(ap, ans, False)
-                s += " " + qual(ap, al) + '="' + esc(av, True, q) + '"'
-            out.append(s + ">")
-            for k in kids:
-                node(k)
-            stack.pop()
-            if "B" in q and stack:
-                if (p is not None or ns != "") and not find(p, ns):
-                    stack[-1][p] = ns
-            out.append("</" + qual(p, l) + ">")
-        elif n[0] == "X":
-            out.append(esc(n[1], False, q))
-        elif n[0] == "C":
-            out.append("<!--" + n[1] + "-->")
-        elif n[0] == "P":
-            out.append("<?" + n[1] + " " + n[2] + "?>")
-        elif n[0] == "D":
-            out.append("<!DOCTYPE " + n[1] + ">")
-    for n in nodes:
-        node(n)
-    return "".join(out)
-
+from checks.c16 import (FIXED_XML, build_all, build_cases, doc_from_json, elements_preorder,
+                        merge_text, parse_tokens, parse_tree, run_impl, sections, show_tokens, strip_doctype_ids)
 
 def shallow(n):
     return None if n is None else (n[:5] if n[0] == "E" else n)
@@ -145,42 +45,16 @@ def first_diff(a, b, path="/"):
     return None
 
 
-def classify(tree1, ser, diff):
-    """minimal set of known serializer root causes that reproduces the implementation's output; failures the
-    serializer switches do not explain are classified by the kind of node that changed"""
-    found = None
-    for n in range(0, len(TOGGLES) + 1):
-        for qs in itertools.combinations(sorted(TOGGLES), n):
-            if ref_serialize(tree1, frozenset(qs)) == ser:
-                found = qs
-                break
-        if found is not None:
-            break
-    if found is None:
-        return ["C17:serialization-not-explained-by-known-root-causes"]
-    if found:
-        return ["C17:" + TOGGLES[t] for t in found]
-    # the declaring serializer writes the same characters, yet the tree changed: a lexical problem
-    _, a, b, prev = diff
-    kind = (a or b)[0]
-    return ["C17:unexplained-%s-node" % kind]
-
-
-def has_cr_or_nul(tree):
+def has_nul(tree):
     def f(nodes):
         for n in nodes:
             if n[0] == "E":
-                if any(("\r" in a[3] or "\0" in a[3]) for a in n[4]) or f(n[5]):
+                if any("\0" in a[3] for a in n[4]) or f(n[5]):
                     return True
-            elif n[0] == "X" and ("\r" in n[1] or "\0" in n[1]):
+            elif n[0] == "X" and "\0" in n[1]:
                 return True
         return False
     return f(tree)
-
-
-def plain_uris(tree):
-    return all(not any(c in el[2] for c in "\"&<\r\0") and all(not any(c in a[1] for c in "\"&<\r\0") for a in el[4])
-               for el, _ in elements_preorder(tree))
 
 
 def run(ck):
@@ -204,8 +78,9 @@ def run(ck):
     ser_out = ck.run_lines(model, [], ser_lines)
     tok2_out = ck.run_lines(model, [], tok2_lines)
 
-    stats = {"cases": len(cases), "roundtrip_ok": 0, "roundtrip_fail": 0, "known": {}, "ser_chars": 0, "elements": 0,
-             "prefixed_attrs": 0, "escaped_chars": 0, "denotation_compared": 0, "panics": 0}
+    stats = {"cases": len(cases), "roundtrip_ok": 0, "roundtrip_fail": 0, "ser_chars": 0, "elements": 0,
+             "prefixed_attrs": 0, "escaped_chars": 0, "denotation_compared": 0, "panics": 0, "consistent": 0,
+             "theorem_applies": 0, "shape_fails": 0}
     nontrivial = 0
     bad_corr = 0
     for i, ((x, doc), o) in enumerate(zip(cases, impl)):
@@ -224,40 +99,29 @@ def run(ck):
             nel += 1
             stats["prefixed_attrs"] += sum(1 for a in el[4] if a[0] is not None)
         stats["elements"] += nel
-        stats["escaped_chars"] += sum(ser.count(e) for e in ("&amp;", "&lt;", "&gt;", "&quot;", "&apos;"))
+        stats["escaped_chars"] += sum(ser.count(e) for e in ("&amp;", "&lt;", "&gt;", "&quot;", "&apos;", "&#13;"))
         # ---- oracle: the property on the implementation
         ok = (t1s == t2s)
-        classes = None
         if ok:
             stats["roundtrip_ok"] += 1
             if nel >= 2 and any(el[2] or any(a[1] for a in el[4]) for el, _ in elements_preorder(tree1)):
                 nontrivial += 1
         else:
             stats["roundtrip_fail"] += 1
-            tree2 = parse_tree(sec["TREE2"])
-            diff = first_diff(tree1, tree2)
-            classes = classify(tree1, ser, diff)
+            diff = first_diff(tree1, parse_tree(sec["TREE2"]))
             payload = {"kind": "failing-input", "xml": x, "doc": doc, "tree": sec["TREE"], "serialized": ser,
                        "reparsed": sec["TREE2"], "first_difference": repr(diff)}
-            for cls in classes:
-                stats["known"][cls] = stats["known"].get(cls, 0) + 1
-                ck.violation("re-parsing the serializer's output gives a different tree; first difference %r" % (diff,),
-                             payload, case_class=cls)
+            ck.violation("re-parsing the serializer's output gives a different tree; first difference %r" % (diff,),
+                         payload, case_class="C17:roundtrip-mismatch")
         # ---- correspondence
         m = sections(ser_out[i])
         problems = []
         if m.get("SER") != sec["SER"]:
-            model_ser = "".join(chr(int(c)) for c in m.get("SER", "").split())
-            if ser.replace("&#13;", "\r").replace("&#xD;", "\r") == model_ser:
-                tolerated_fix(ck, TOGGLES["D"])             # CR is now written as a character reference
-            elif not plain_uris(tree1):
-                tolerated_fix(ck, TOGGLES["E"] + " (serialization not compared for such URIs)")
-            else:
-                problems.append("serialization")
+            problems.append("serialization")
         m2 = sections(tok2_out[i])
         if m2.get("TREE") != sec["TREE2"] or m2.get("ERRS") != sec["ERRS2"].split()[1]:
             problems.append("second tree")
-        if not problems and not has_cr_or_nul(tree1) and plain_uris(tree1):
+        if not problems and not has_nul(tree1):
             # what the model says the items are lexed into == what the tokenizer really delivered
             stats["denotation_compared"] += 1
             want = merge_text([t for t in parse_tokens(sec["TOKS2"]) if t[0] != "Z"])
@@ -265,33 +129,24 @@ def run(ck):
             got = [t for t in got if not (t[0] == "X" and t[1] == "")]
             if show_tokens(want) != show_tokens(got):
                 problems.append("item denotation")
-        # ---- tested (not proved) model statements: clean => adequate (proved, sanity) and
-        #      rt_hyps => the token-level round trip holds (proved) and the implementation keeps the tree
+        # ---- model statements, re-tested on every parsed tree: forest_cons => adequate (proved),
+        #      rt_hyps => token-level round trip (proved); and tested only: parsed trees are consistent and
+        #      (if they have a root) satisfy rt_hyps
         fl = dict(kv.split("=") for kv in m.get("FLAGS", "").split())
         if fl:
-            stats["model_clean"] = stats.get("model_clean", 0) + (fl["clean"] == "1")
-            if fl["clean"] == "1" and fl["adequate"] != "1":
-                problems.append("model: ser_clean but not adequate")
+            stats["consistent"] += (fl["cons"] == "1")
+            if fl["cons"] != "1":
+                problems.append("model: a parsed tree is not forest_cons")
+            elif fl["adequate"] != "1":
+                problems.append("model: forest_cons but not adequate (contradicts C17_decl_adequate)")
             if fl.get("hyps") == "1":
-                # the hypotheses of C17_roundtrip_partial hold for this parsed tree: the theorem applies
-                stats["theorem_applies"] = stats.get("theorem_applies", 0) + 1
+                stats["theorem_applies"] += 1
                 if fl["roundtrip"] != "1":
                     problems.append("model: rt_hyps holds but the token-level round trip fails (contradicts the theorem)")
-                if not ok and not has_cr_or_nul(tree1) and plain_uris(tree1) and not problems:
-                    problems.append("implementation loses a tree the model calls clean")
-            elif fl["clean"] == "1" and nel > 0:
-                # parsed and clean - and still outside the theorem's shape conditions?
-                stats["clean_but_shape_fails"] = stats.get("clean_but_shape_fails", 0) + 1
-            if fl["clean"] != "1" and ok and not problems:
-                stats["flagged_but_roundtrips"] = stats.get("flagged_but_roundtrips", 0) + 1
+            elif nel > 0:
+                stats["shape_fails"] += 1
+                problems.append("model: a parsed tree with a root element does not satisfy rt_hyps")
         if problems:
-            if "serialization" in problems and ok:
-                # the pinned model loses the tree on this input (declarations at token level, CR / raw URI at
-                # character level), the implementation does not: repaired in /repo, not a broken tie
-                if (m.get("TREE") is not None and strip_doctype_ids(m["TREE"]) != t1s) or has_cr_or_nul(tree1) \
-                        or not plain_uris(tree1):
-                    tolerated_fix(ck, "serializer output differs from the pinned model and round-trips")
-                    continue
             bad_corr += 1
             if bad_corr <= 3:
                 ck.broken.append("correspondence xmlns serializer model vs xml5ever (%s): xml %r tree %r impl ser %r model %r"
@@ -309,13 +164,13 @@ def run(ck):
                        "is evaluated on the implementation alone.",
     })
     return ck.finish(
-        trusted=["Coq 8.16.1 kernel (coqc; vm_compute in the refutation witnesses and Examples)",
+        trusted=["Coq 8.16.1 kernel (coqc; vm_compute in the witnesses and Examples)",
                  "Extraction (ExtrOcamlBasic only) + ocamlopt 4.13.1",
                  "ocaml/xmlns_driver.ml, ocaml/conv.ml, harness/src/bin/xmlns.rs, lib/checks/c16.py + c17.py generator, "
-                 "canonical tree printer and reference serializer (used only to name the root cause of a failure)",
+                 "canonical tree printer",
                  "the lexing of tags/attributes/comments/PIs of the serializer's output by the XML tokenizer (tested by "
                  "the item denotation correspondence, not modelled in Coq; text and attribute values are modelled)",
-                 "parsed trees satisfy the shape hypotheses of C17_roundtrip_partial (tested: stats.theorem_applies "
-                 "vs stats.model_roundtrip_expected, not proved)"],
+                 "parsed trees satisfy the shape hypotheses of C17_roundtrip_partial and forest_cons (tested on every "
+                 "generated tree: stats.theorem_applies, stats.shape_fails, stats.consistent; not proved)"],
         assumptions=["doctype public/system ids are outside the serializer API and excluded from the comparison",
                      "trees are those produced by the XML parser (RcDom): no adjacent and no empty text nodes"])
